@@ -109,8 +109,11 @@ def ctor_cases(draw):
             n = draw(st.integers(0, 8))
             c["interval"] = [a, a + stp * n, stp]
             if not float(stp).is_integer() and stp not in (0.5,):
-                # decimal bounds: the element count ceil((end-start)/step) is taken from the doubles as given
-                c["interval"] = [draw(st.sampled_from([0, 0.1, 1])), round(draw(st.sampled_from([2.1, 0.9, 1.5, 3.3])) * (1 if stp > 0 else -1), 6), stp]
+                # decimal bounds: the element count ceil((end-start)/step) is taken from the doubles as given - these
+                # triples give another count when the bounds are first rounded to float32
+                c["interval"] = list(draw(st.sampled_from([(0.0, 2.1, 0.3), (0.0, -2.1, -0.3), (0.0, 2.1, 0.7), (0.0, 2.1, 0.15), (0.0, 2.7, 0.3),
+                                                           (0.0, -2.7, -0.15), (0.1, 0.3, 0.1), (0.1, 0.3, 0.2), (0.1, 0.4, 0.1), (0.1, 0.4, 0.3),
+                                                           (1.0, 3.3, 0.7), (0.0, 0.9, 0.1), (0.0, 1.5, 0.3)])))
     if name == "normal":
         c["loc"] = draw(st.sampled_from([0.0, -3.0, 10.0]))
         c["scale"] = draw(st.sampled_from([1.0, 0.5, 4.0]))
